@@ -35,8 +35,9 @@ def _unwrap(value):
 
 
 class _Rewrite:
-    def __init__(self):
+    def __init__(self, params=()):
         self.counter = 0
+        self.params = set(params)
         self.changed = False
 
     def block(self, stmts):
@@ -75,6 +76,13 @@ class _Rewrite:
                     inner = [ast.If(test=cond, body=inner, orelse=[])]
                 inner = [(ast.AsyncFor if gen.is_async else ast.For)(target=gen.target, iter=gen.iter, body=inner, orelse=[])]
             new = inner
+        elif isinstance(arg, ast.Name) and arg.id in self.params:
+            # ``m.update(mapping)`` with a mapping handed in as a parameter: every item of it is stored, in its order
+            self.counter += 1
+            k, v = "_uk%d" % self.counter, "_uv%d" % self.counter
+            tgt = ast.Tuple(elts=[ast.Name(id=k, ctx=ast.Store()), ast.Name(id=v, ctx=ast.Store())], ctx=ast.Store())
+            it = ast.Call(func=ast.Attribute(value=ast.Name(id=arg.id, ctx=ast.Load()), attr="items", ctx=ast.Load()), args=[], keywords=[])
+            new = [ast.For(target=tgt, iter=it, body=[store(ast.Name(id=k, ctx=ast.Load()), ast.Name(id=v, ctx=ast.Load()))], orelse=[])]
         else:
             return None
         out = []
@@ -158,7 +166,8 @@ def loops_view(model, fi):
     node = copy.deepcopy(fi.node)
     # nested function definitions are kept as they are (same objects as in the original, for the children)
     orig_defs = [s for s in ast.walk(fi.node) if isinstance(s, (ast.FunctionDef, ast.AsyncFunctionDef)) and s is not fi.node]
-    rw = _Rewrite()
+    a_ = fi.node.args
+    rw = _Rewrite(params=[x.arg for x in a_.posonlyargs + a_.args + a_.kwonlyargs])
     node.body = rw.block(node.body)
     if not rw.changed or orig_defs and False:
         cache[key] = fi
